@@ -51,17 +51,38 @@ CH.update({20 + i: str(i) for i in range(10)})
 CH.update({30 + i: 'ABCDEF'[i] for i in range(6)})
 CH.update({41 + i: 'bcdef'[i] for i in range(5)})
 
+# binding table of the static-context configurations (constant StaticCfgs of the specs): keyword arguments
+# of the parser that evaluates the expression.  The laws do not mention the configuration.
+NS_B = 'urn:c17:b'
+STATIC = {
+    'default': {},
+    'base-abs': dict(base_uri='http://example.com/base/'),
+    'base-rel': dict(base_uri='rel/dir/'),
+    'collation': dict(default_collation='http://www.w3.org/2005/xpath-functions/collation/html-ascii-case-insensitive'),
+    'ns-prefix': dict(namespaces={'p': NS_B, 'q': 'urn:c17:q'}),
+    'ns-default': dict(namespaces={'': 'urn:c17:default', 'p': NS_B}),
+    'xsd11': dict(xsd_version='1.1'),
+    'nonstrict': dict(strict=False),
+    'compat': dict(compatibility_mode=True),
+}
+XML_CFGS = set(STATIC)
+JSON_CFGS = {'default', 'base-abs', 'xsd11'}
+
+
 TIERS = {
     'quick': dict(strings=[('all2', dict(MaxLen=2, FormMode='all', Pols=set())),
                            ('pol3', dict(MaxLen=3, FormMode='policy', Pols={'canon', 'U', 'py'}, _replay_pols=('canon', 'U')))],
-                  model=dict(Universe='quick', MaxDepth=8),
-                  xml=[('N3', dict(N=3, Kinds={"ea", "eb", "t", "c", "p", "xa", "xc"}, RootCfg="R1"))]),
+                  model=dict(Universe='quick', MaxDepth=8, StaticCfgs=JSON_CFGS),
+                  xml=[('N3', dict(N=3, Kinds={"ea", "eb", "t", "c", "p", "xa", "xc"}, RootCfg="R1", StaticCfgs=XML_CFGS,
+                                   PrologMode='all'))]),
     'thorough': dict(strings=[('all3', dict(MaxLen=3, FormMode='all', Pols=set())),
                               ('pol3', dict(MaxLen=3, FormMode='policy', Pols={'canon', 'min', 'U', 'l', 'py'})),
                               ('pol4', dict(MaxLen=4, FormMode='policy', Pols={'canon', 'U'}))],
-                     model=dict(Universe='thorough', MaxDepth=8),
-                     xml=[('N3', dict(N=3, Kinds={"ea", "eb", "t", "c", "p", "xa", "xc"}, RootCfg="R1")),
-                          ('N4', dict(N=4, Kinds={"ea", "eb", "t", "c", "p", "xa", "xc"}, RootCfg="R1"))]),
+                     model=dict(Universe='thorough', MaxDepth=8, StaticCfgs=JSON_CFGS),
+                     xml=[('N3', dict(N=3, Kinds={"ea", "eb", "t", "c", "p", "xa", "xc"}, RootCfg="R1", StaticCfgs=XML_CFGS,
+                                      PrologMode='all')),
+                          ('N4', dict(N=4, Kinds={"ea", "eb", "t", "c", "p", "xa", "xc"}, RootCfg="R1",
+                                      StaticCfgs={'default', 'base-abs', 'ns-default'}, PrologMode='none'))]),
 }
 
 
@@ -215,29 +236,32 @@ JSON_OPT = 'map{"method":"json"}'
 
 # ---------------------------------------------------------------------------------------------
 # rendering of spec values
-def render_xv(v, variables: list) -> str:
-    """XDM value of JsonModel -> XPath constructor text; atoms are passed as variables"""
+def render_xv(v, variables: list, seq1: bool = False, member: bool = False) -> str:
+    """XDM value of JsonModel -> XPath constructor text; atoms are passed as variables.
+    seq1: an atomic member / entry value is spelled as the singleton sequence (ATOM)[1] -- in XDM an item
+    and the sequence of length one containing it are the same value"""
     t = v['t']
     if t == 'empty':
         return '()'
     if t == 'bool':
-        return 'true()' if v['b'] else 'false()'
+        a = 'true()' if v['b'] else 'false()'
+        return f'({a})[1]' if seq1 and member else a
     name = f'a{len(variables)}'
     if t == 'str':
         variables.append([name, 's', S(v['s'])])
-        return '$' + name
+        return f'(${name})[1]' if seq1 and member else '$' + name
     if t == 'num':
         lex = format(numd(v['m'], v['e']), 'f')
         variables.append([name, {'int': 'i', 'dec': 'd', 'dbl': 'f'}[v['ty']], lex])
-        return '$' + name
+        return f'(${name})[1]' if seq1 and member else '$' + name
     if t == 'arr':
-        return '[' + ', '.join(render_xv(x, variables) for x in v['items']) + ']'
+        return '[' + ', '.join(render_xv(x, variables, seq1, True) for x in v['items']) + ']'
     if t == 'map':
         parts = []
         for k, x in sorted(dict(v['o']).items()):
             kn = f'a{len(variables)}'
             variables.append([kn, 's', S(k)])
-            parts.append(f'${kn}: {render_xv(x, variables)}')
+            parts.append(f'${kn}: {render_xv(x, variables, seq1, True)}')
         return 'map{' + ', '.join(parts) + '}'
     raise tla.MachineryError(f'unknown XDM value {v!r}')
 
@@ -320,9 +344,18 @@ def _walk(c, f: dict):
                 f['keyed_nonstr_special'] = True
 
 
+_LOOKS_ESCAPED = re.compile(r'\\(?:u[0-9A-Fa-f]{4}|["\\/bfnrt])')
+
+
 def _strflags(s: str, where: str, f: dict):
     if '\\' in s:
         f[where + '_bs'] = f['bs'] = True
+        if '\\' in _LOOKS_ESCAPED.sub('', s):
+            f['bs_invalid_looking'] = True   # a backslash that would NOT be a well-formed escape if the value were read as escaped text
+        if re.search(r'\\u[0-9A-Fa-f]{4}', s):
+            f['bs_u_hex'] = True             # backslash u + four hex digits as VALUE characters
+        if re.search(r'\\\\u(?![0-9A-Fa-f]{4})', s):
+            f['bs_bs_u'] = True              # two backslashes and u, not followed by four hex digits
     if '/' in s:
         f[where + '_slash'] = f['slash'] = True
     if '"' in s:
@@ -335,7 +368,7 @@ def _strflags(s: str, where: str, f: dict):
         f['astral'] = True
 
 
-FLAGS = ['str_bs', 'key_bs', 'bs', 'str_slash', 'key_slash', 'slash', 'str_quote', 'key_quote', 'quote', 'str_ctl', 'key_ctl',
+FLAGS = ['str_bs', 'key_bs', 'bs', 'bs_invalid_looking', 'bs_u_hex', 'bs_bs_u', 'str_slash', 'key_slash', 'slash', 'str_quote', 'key_quote', 'quote', 'str_ctl', 'key_ctl',
          'nonxml', 'astral', 'num_exp', 'num_exp_ends0', 'keyed_null', 'keyed_nonstr', 'keyed_nonstr_special', 'keys_bs_pair']
 
 
@@ -409,8 +442,7 @@ def _alarm(signum, frame):
 _P31 = None
 _SELECTORS: dict = {}
 
-
-def call(expr: str, variables=None, root=None, cache: bool = False):
+def call(expr: str, variables=None, root=None, cache: bool = False, cfg: str = 'default'):
     """outcome classes: ('ok', value) | ('err', code) | ('escaped', ExceptionClass) | ('hang',)"""
     global _P31
     import elementpath
@@ -420,14 +452,16 @@ def call(expr: str, variables=None, root=None, cache: bool = False):
         _P31 = XPath31Parser
         signal.signal(signal.SIGALRM, _alarm)
     kw = {'item': 1} if root is None else {}
-    signal.alarm(20)
+    pk = dict(STATIC[cfg])
+    ns = pk.pop('namespaces', None)
+    signal.alarm(60)
     try:
         if cache:        # constant expression text, only the variable values change: parse once
-            sel = _SELECTORS.get(expr)
+            sel = _SELECTORS.get((expr, cfg))
             if sel is None:
-                sel = _SELECTORS[expr] = elementpath.Selector(expr, parser=_P31)
+                sel = _SELECTORS[(expr, cfg)] = elementpath.Selector(expr, namespaces=ns, parser=_P31, **pk)
             return ('ok', sel.select(root, variables=variables, **kw))
-        return ('ok', elementpath.select(root, expr, variables=variables, parser=_P31, **kw))
+        return ('ok', elementpath.select(root, expr, namespaces=ns, variables=variables, parser=_P31, **kw, **pk))
     except ElementPathError as e:
         return ('err', (e.code or '').split(':')[-1])
     except _Hang:
@@ -490,7 +524,8 @@ def run_eval(ev: dict):
         mod = ET if ev['lib'] == 'etree' else LX
         el = build_xe(ev['xe'], mod)
         root = ET.ElementTree(el) if ev['lib'] == 'etree' else el.getroottree()
-    res = call(ev['expr'], mkvars(ev.get('vars', [])) or None, root, cache='serialize(' not in ev['expr'])
+    res = call(ev['expr'], mkvars(ev.get('vars', [])) or None, root, cache='serialize(' not in ev['expr'],
+               cfg=ev.get('opts', {}).get('cfg', 'default'))
     if kind == 'text':
         return judge_text(res, ev['exp'])
     if kind == 'proj':
@@ -651,7 +686,7 @@ def xv_flags(v, f: dict, member: bool = False):
             xv_flags(x, f, True)
 
 
-def model_evals(g) -> tuple:
+def model_evals(g, all_cfgs: bool = False) -> tuple:
     out = g.out()
     evs = []
     oracle_bad = []
@@ -680,46 +715,55 @@ def model_evals(g) -> tuple:
         for (d, act, args) in out[sid]:
             n_edges += 1
             dst = g.states[d]
+            c, args = args[0], args[1:]          # static-context configuration of the edge
+            main = c == 'default'
+            full = main or all_cfgs              # quick tier: the other configurations in one spelling only
             if rep == 'xdm' and act == 'Serialize':
-                variables: list = []
-                ctor = render_xv(st['val'], variables)
                 exp = canon_av(dst['abs'])
                 fl = flags_of(exp)
                 fl['dec_long'] = fl['dec_nondyadic_member'] = False
                 xv_flags(st['val'], fl)
-                if st['val']['t'] in ('arr', 'map'):
+                composite = st['val']['t'] in ('arr', 'map')
+                if composite and main:
                     nontrivial += 1
-                evs.append(dict(law='serialize', expr=f'serialize({ctor}, {JSON_OPT})', vars=variables, judge='text', exp=exp,
-                                opts=dict(pos='model'), flags=fl))
-                d2 = [x for x in out[d] if x[1] == 'ParseJson' and x[2][0] == 'use-first']
+                d2 = [x for x in out[d] if x[1] == 'ParseJson' and x[2] == ('default', 'use-first')]
                 if len(d2) != 1:
                     raise tla.MachineryError('Serialize successor without ParseJson(use-first) edge')
-                back = g.states[d2[0][0]]
-                exp2 = canon_av(back['abs'])
-                evs.append(dict(law='parse-json(serialize)',
-                                expr=f'let $r := parse-json(serialize({ctor}, {JSON_OPT})) return {PROJ}',
-                                vars=variables, judge='proj', exp=exp2, opts=dict(pos='model'), flags=fl))
-                if exp2 == canon_av(st['abs']):       # ValuePreserved: the cycle is the identity => deep-equal
-                    evs.append(dict(law='deep-equal(parse-json(serialize))',
-                                    expr=f'let $v := {ctor} return deep-equal($v, parse-json(serialize($v, {JSON_OPT})))',
-                                    vars=variables, judge='true', exp=True, opts=dict(pos='model'), flags=fl))
+                exp2 = canon_av(g.states[d2[0][0]]['abs'])
+                for seq1 in ((False, True) if composite and full else (False,)):
+                    variables: list = []
+                    ctor = render_xv(st['val'], variables, seq1)
+                    if seq1 and '[1]' not in ctor:
+                        continue
+                    o = dict(pos='model', cfg=c, spelling='singleton-filter' if seq1 else 'plain')
+                    evs.append(dict(law='serialize', expr=f'serialize({ctor}, {JSON_OPT})', vars=variables, judge='text',
+                                    exp=exp, opts=o, flags=fl))
+                    if not full:
+                        continue
+                    evs.append(dict(law='parse-json(serialize)',
+                                    expr=f'let $r := parse-json(serialize({ctor}, {JSON_OPT})) return {PROJ}',
+                                    vars=variables, judge='proj', exp=exp2, opts=o, flags=fl))
+                    if exp2 == canon_av(st['abs']):       # ValuePreserved: the cycle is the identity => deep-equal
+                        evs.append(dict(law='deep-equal(parse-json(serialize))',
+                                        expr=f'let $v := {ctor} return deep-equal($v, parse-json(serialize($v, {JSON_OPT})))',
+                                        vars=variables, judge='true', exp=True, opts=o, flags=fl))
             elif rep == 'text' and act == 'ParseJson':
                 dup = args[0]
                 exp = canon_av(dst['abs'])
                 fl = flags_of(canon_av(st['abs']))
                 fl['has_dup'] = st['start'] == 'textdup'
-                for spaced in (False, True):
+                for spaced in ((False, True) if full else (False,)):
                     v = [['t', 's', render_tokens(st['val'], spaced)]]
-                    spell = [f'parse-json($t, map{{"duplicates":"{dup}"}})'] + (['parse-json($t)'] if dup == 'use-first' else [])
+                    spell = [f'parse-json($t, map{{"duplicates":"{dup}"}})'] + (['parse-json($t)'] if dup == 'use-first' and full else [])
                     for sp in spell:
                         evs.append(dict(law='parse-json', expr=f'let $r := {sp} return {PROJ}', vars=v, judge='proj', exp=exp,
-                                        opts=dict(pos='model', dup=dup, esc=False), flags=fl))
+                                        opts=dict(pos='model', cfg=c, dup=dup, esc=False), flags=fl))
             elif rep == 'text' and act == 'JsonToXml':
                 esc, dup = args
                 if dst['rep'] == 'err':
                     exp = ['err']
                 else:
-                    nxt = [x for x in out[d] if x[1] == 'XmlToJson']
+                    nxt = [x for x in out[d] if x[1] == 'XmlToJson' and x[2] == ('default',)]
                     if len(nxt) != 1:
                         raise tla.MachineryError('xml state without XmlToJson edge')
                     exp = canon_av(g.states[nxt[0][0]]['abs'])
@@ -728,21 +772,24 @@ def model_evals(g) -> tuple:
                 v = [['t', 's', render_tokens(st['val'])]]
                 o = f'map{{"escape":{"true()" if esc else "false()"}, "duplicates":"{dup}"}}'
                 spell = [f'xml-to-json(json-to-xml($t, {o}))']
-                if not esc and dup == 'retain':
+                if not esc and dup == 'retain' and full:
                     spell.append('xml-to-json(json-to-xml($t))')
                 for sp in spell:
                     evs.append(dict(law='xml-to-json(json-to-xml)', expr=sp, vars=v, judge='text', exp=exp,
-                                    opts=dict(pos='model', esc=bool(esc), dup=dup), flags=fl))
+                                    opts=dict(pos='model', cfg=c, esc=bool(esc), dup=dup), flags=fl))
             elif rep == 'xml' and act == 'XmlToJson':
                 exp = canon_av(dst['abs'])
                 fl = flags_of(canon_av(st['abs']))
                 fl['has_dup'] = exp == ['err']
                 xe = xe_jsonable(st['val'])
-                for lib in ('etree', 'lxml'):
+                for lib in (('etree', 'lxml') if full else ('etree',)):
                     evs.append(dict(law='xml-to-json', expr='xml-to-json(.)', xe=xe, lib=lib, judge='text', exp=exp,
-                                    opts=dict(pos='model', lib=lib, esc=_any_escaped(st['val'])), flags=fl))
+                                    opts=dict(pos='model', cfg=c, lib=lib, esc=_any_escaped(st['val'])), flags=fl))
             else:
                 raise tla.MachineryError(f'unexpected edge {rep} --{act}-->')
+    cfgs_seen = {a[0] for _, _, _, a in g.edges}
+    if not cfgs_seen <= JSON_CFGS or 'default' not in cfgs_seen:
+        raise tla.MachineryError(f'JsonModel edges carry unknown static configurations {sorted(cfgs_seen)}')
     return evs, n_edges, nontrivial
 
 
@@ -756,9 +803,12 @@ def _any_escaped(xe) -> bool:
 # decomposables ANGSTROM SIGN and OHM SIGN, unordered combining marks): opaque code points for the spec, the
 # round trip must give them back unchanged (the serialization parameter normalization-form defaults to none)
 NONNFC = 'e\u0301\u212b\u2126a\u0301\u0323'
-TEXTS = {'plain': 't%d', 'markup': '<&>"\'%d', 'nonnfc': NONNFC + '%d'}
-ATTVALS = {'plain': 'v%d', 'markup': '<&>"\'\n\t%d', 'nonnfc': NONNFC + '%d'}
-NS_B = 'urn:c17:b'
+# 'big8k' / 'big64k': every text and attribute value is longer than the 8 KB / 64 KB buffers of the serializers
+BIG = 'abcdefghi '
+TEXTS = {'plain': 't%d', 'markup': '<&>"\'%d', 'nonnfc': NONNFC + '%d', 'big8k': BIG * 900 + '%d', 'big64k': BIG * 7000 + '%d'}
+ATTVALS = {'plain': 'v%d', 'markup': '<&>"\'\n\t%d', 'nonnfc': NONNFC + '%d', 'big8k': BIG * 900 + '%d',
+           'big64k': BIG * 7000 + '%d'}
+CONTENT_VARIANTS = ('markup', 'nonnfc', 'big8k', 'big64k')
 
 
 def expected_tree(parent2, kind2, first: int, variant: str):
@@ -766,7 +816,7 @@ def expected_tree(parent2, kind2, first: int, variant: str):
     n = len(kind2)
     kids: dict = {i: [] for i in range(1, n + 1)}
     atts: dict = {i: [] for i in range(1, n + 1)}
-    cont = variant if variant in ('markup', 'nonnfc') else 'plain'
+    cont = variant if variant in CONTENT_VARIANTS else 'plain'
 
     def name(k):
         nm = {'ea': 'a', 'eb': 'b', 'xa': 'a', 'xc': 'c'}[k]
@@ -830,14 +880,14 @@ def make_doc(parent, kind, lib: str, variant: str) -> Doc:
             elif k == 'xc':
                 el = d.objs[parent[i - 1]]
                 el.set('{%s}c' % NS_B, el.attrib.pop('c'))
-        elif variant in ('markup', 'nonnfc'):
+        elif variant in CONTENT_VARIANTS:
             if k in ('xa', 'xc'):
                 d.objs[parent[i - 1]].set({'xa': 'a', 'xc': 'c'}[k], ATTVALS[variant] % i)
-    if variant in ('markup', 'nonnfc'):
+    if variant in CONTENT_VARIANTS:
         for el in d.root.iter():
             if callable(el.tag):
                 continue
-            if el.text and el.text[:1] == 't':
+            if el.text and el.text[:1] == 't' and el.text[1:].isdigit():
                 el.text = TEXTS[variant] % int(el.text[1:])
             for k in el:
                 if k.tail and k.tail[:1] == 't':
@@ -848,7 +898,15 @@ def make_doc(parent, kind, lib: str, variant: str) -> Doc:
 def xml_case(case: dict):
     """one (tree, context node, lib, rootkind, variant) -> list of (law, outcome, observed)"""
     parent, kind, ctx = case['parent'], case['kind'], case['ctx']
+    cfg = case.get('cfg', 'default')
+    prolog = case.get('prolog') or []
     d = make_doc(parent, kind, case['lib'], case['variant'])
+    exp_prolog = []
+    for j, k in enumerate(prolog):        # children of the document node before the root element (lxml only)
+        import lxml.etree as LX
+        leaf = LX.Comment(f'c0{j}') if k == 'c' else LX.ProcessingInstruction('p', f'p0{j}')
+        d.root.addprevious(leaf)
+        exp_prolog.append(['c', f'c0{j}'] if k == 'c' else ['p', 'p', f'p0{j}'])
     root = d.tree if case['root'] == 'doc' else d.root
     if ctx == 0:
         node, cmp_ = '.', '.'
@@ -858,7 +916,7 @@ def xml_case(case: dict):
         node = f'(//*)[{rank}]' if case['root'] == 'doc' else f'(descendant-or-self::*)[{rank}]'
         res_path = '/*'
     out = []
-    r1 = call(f'for $n in {node} return deep-equal($n, parse-xml(serialize($n)){res_path})', None, root, cache=True)
+    r1 = call(f'for $n in {node} return deep-equal($n, parse-xml(serialize($n)){res_path})', None, root, cache=True, cfg=cfg)
     if r1[0] != 'ok':
         out.append(('deep-equal(parse-xml(serialize))', f'error:{r1[1]}' if r1[0] == 'err' else f'{r1[0]}:{r1[-1]}', repr(r1)))
     else:
@@ -867,7 +925,7 @@ def xml_case(case: dict):
             v = v[0]
         if v is not True:
             out.append(('deep-equal(parse-xml(serialize))', 'false', repr(v)))
-    r2 = call(f'parse-xml(serialize({node}))', None, root, cache=True)
+    r2 = call(f'parse-xml(serialize({node}))', None, root, cache=True, cfg=cfg)
     exp = expected_tree(case['parent2'], case['kind2'], max(ctx, 1), case['variant'])
     if r2[0] != 'ok':
         out.append(('parse-xml(serialize)', f'error:{r2[1]}' if r2[0] == 'err' else f'{r2[0]}:{r2[-1]}', repr(r2)))
@@ -876,14 +934,29 @@ def xml_case(case: dict):
         if not (isinstance(v, list) and len(v) == 1 and hasattr(v[0], 'getroot')):
             out.append(('parse-xml(serialize)', 'not_a_document', repr(v)))
         else:
-            obs = observed_tree(v[0].getroot())
+            doc = v[0]
+            if not hasattr(doc.getroot(), 'tag') and hasattr(doc, 'value'):
+                doc = doc.value        # lxml documents with several children are returned as document NODES
+            obs = observed_tree(doc.getroot())
+            if case['lib'] == 'lxml' and ctx == 0:
+                obs_prolog = [observed_tree(x) for x in reversed(list(doc.getroot().itersiblings(preceding=True)))]
+                if obs_prolog != exp_prolog:
+                    out.append(('parse-xml(serialize)', 'prolog', json.dumps(obs_prolog)[:600]))
             if obs != exp:
                 lost = strip_cp(obs) == strip_cp(exp) and obs == strip_cp(obs)
                 merged = False
                 if not lost:
                     merged = _merge_text(strip_cp(exp)) == obs
-                out.append(('parse-xml(serialize)', 'comments_pis_lost' if (lost or merged) else 'structure', json.dumps(obs)))
+                out.append(('parse-xml(serialize)', 'comments_pis_lost' if (lost or merged) else 'structure', _short(json.dumps(obs))))
     return out, exp
+
+
+def _short(text: str) -> str:
+    """long observed values (big documents): head, the places where white space was inserted, tail"""
+    if len(text) <= 1500:
+        return text
+    marks = [m.start() for m in re.finditer(r'\\n', text)][:6]
+    return text[:300] + ' ... ' + ' ... '.join(text[max(0, i - 25):i + 25] for i in marks) + ' ... ' + text[-300:]
 
 
 def _merge_text(t):
@@ -909,10 +982,11 @@ def xml_worker(cases: list):
         sub = case['kind2']
         for law, outcome, obs in res:
             feat = dict(law=law, outcome=outcome, lib=case['lib'], root=case['root'], variant=case['variant'],
+                        cfg=case.get('cfg', 'default'), has_prolog=bool(case.get('prolog')),
                         ctx=('document' if case['ctx'] == 0 else 'root-element' if case['ctx'] == 1 else 'inner-element'),
                         has_comment_or_pi=any(k in ('c', 'p') for k in sub),
                         has_tail=bool(case['ctx'] > 1 and _has_tail(case['parent'], kind, case['ctx'])))
-            fails.append((feat, case, exp, obs))
+            fails.append((feat, case, _short(json.dumps(exp)), obs))
     return n, fails
 
 
@@ -941,8 +1015,8 @@ def replay(rec: dict) -> int:
     case = rec['case']
     if 'parent2' in case:
         res, exp = xml_case(case)
-        print('case     :', {k: case[k] for k in ('parent', 'kind', 'ctx', 'lib', 'root', 'variant')})
-        print('expected :', exp)
+        print('case     :', {k: case.get(k) for k in ('parent', 'kind', 'ctx', 'lib', 'root', 'variant', 'cfg', 'prolog')})
+        print('expected :', _short(json.dumps(exp)))
         bad = [r for r in res if r[0] == rec['features']['law']]
         for law, outcome, obs in res:
             print('observed :', law, outcome, obs[:300])
@@ -970,6 +1044,7 @@ def run(chk: core.Check) -> None:
         'codepoints that are not XML 1.0 characters (U+0001) are replaced by U+FFFD by parse-json / json-to-xml(escape=false) (F&O 3.1 17.5.1, 17.4.2)',
         'errors are compared by class only (the property names no error code)',
         'parse-xml(serialize(element)) is a document node: its root element is compared with the element',
+        'static-context configurations (StaticCfgs) are parser keyword arguments: ' + json.dumps(STATIC, sort_keys=True),
     ]
     # ---- TLC, all configurations concurrently
     jobs = []
@@ -1017,7 +1092,7 @@ def run(chk: core.Check) -> None:
             print(f'  JsonString/{name}: states={r.distinct} evaluations={len(evs)} tlc={r.wall_s:.1f}s', flush=True)
         elif mod == 'JsonModel':
             g = tla.load_dot(dot)
-            evs, n_edges, nontrivial = model_evals(g)
+            evs, n_edges, nontrivial = model_evals(g, all_cfgs=chk.tier == 'thorough')
             chk.add('transitions', n_edges)
             chk.add('traces_validated_against_impl', n_edges)
             chk.add('distinct_nontrivial', nontrivial)
@@ -1027,13 +1102,23 @@ def run(chk: core.Check) -> None:
             done = load_nodes(dot, ('phase = \\"done\\"',))
             if not done or not {0, 1} <= {s['ctx'] for s in done} or max(s['ctx'] for s in done) < 2:
                 raise tla.MachineryError('XmlRoundTrip: no done states for document / root / inner context nodes')
+            if not {s['cfg'] for s in done} <= set(STATIC) or (consts['PrologMode'] == 'all' and not any(s['prolog'] for s in done)):
+                raise tla.MachineryError('XmlRoundTrip: static configurations / prologs of the dump do not match the binding table')
             for s in done:
-                for lib in ('etree', 'lxml'):
-                    for variant in ('plain', 'ns', 'markup', 'nonnfc'):
-                        for rootk in (('doc',) if s['ctx'] == 0 else ('doc', 'elem')):
-                            xml_cases.append(dict(parent=list(s['parent']), kind=list(s['kind']), ctx=s['ctx'],
-                                                  parent2=list(s['parent2']), kind2=list(s['kind2']),
-                                                  lib=lib, variant=variant, root=rootk))
+                cfg, prolog = s['cfg'], list(s['prolog'])
+                if prolog:            # children of the document node before the root: representable with lxml only
+                    if chk.tier == 'quick' and cfg not in ('default', 'base-abs'):
+                        continue
+                    combos = [('lxml', 'plain', 'doc')]
+                else:
+                    variants = (('plain', 'ns', 'markup', 'nonnfc', 'big8k', 'big64k') if cfg == 'default'
+                                else ('plain', 'ns') if cfg.startswith('ns-') else ('plain',))
+                    combos = [(lib, v, rk) for lib in ('etree', 'lxml') for v in variants
+                              for rk in (('doc',) if s['ctx'] == 0 else ('doc', 'elem'))]
+                for lib, variant, rootk in combos:
+                    xml_cases.append(dict(parent=list(s['parent']), kind=list(s['kind']), ctx=s['ctx'],
+                                          parent2=list(s['parent2']), kind2=list(s['kind2']), cfg=cfg, prolog=prolog,
+                                          lib=lib, variant=variant, root=rootk))
             chk.add('transitions', len(done))
             chk.add('traces_validated_against_impl', len(done))
             chk.add('distinct_nontrivial', sum(1 for s in done if len(s['kind2']) > 1))
@@ -1046,7 +1131,7 @@ def run(chk: core.Check) -> None:
     for ev in json_evs[:: max(1, len(json_evs) // 8)][:8]:
         chk.sample(dict(law=ev['law'], expr=ev['expr'][:160], vars=ev.get('vars'), expected=ev['exp']))
     for c in xml_cases[:: max(1, len(xml_cases) // 3)][:3]:
-        chk.sample(dict(law='parse-xml(serialize)', **{k: c[k] for k in ('parent', 'kind', 'ctx', 'lib', 'variant', 'root')}))
+        chk.sample(dict(law='parse-xml(serialize)', **{k: c[k] for k in ('parent', 'kind', 'ctx', 'lib', 'variant', 'root', 'cfg', 'prolog')}))
 
     print(f'  tlc+plan done at {time.time() - chk.t0:.0f}s; {len(json_evs)} json evaluations, {len(xml_cases)} xml cases', flush=True)
     res = core.pool_map(json_worker, core.chunked(json_evs, 96), procs=PROCS)
@@ -1054,7 +1139,10 @@ def run(chk: core.Check) -> None:
         chk.add('evaluations', n)
         for feat, case, exp, obs in fails:
             chk.fail(feat, case, exp, obs, what=f"{case['law']} {case['expr'][:80]} {case.get('vars', '')!s:.120}")
-    res = core.pool_map(xml_worker, core.chunked(xml_cases, 64), procs=PROCS)
+    # a default namespace in the static context is registered process-wide by the xml.etree backend: those cases
+    # run last, in worker processes of their own
+    res = core.pool_map(xml_worker, core.chunked([c for c in xml_cases if c['cfg'] != 'ns-default'], 64), procs=PROCS)
+    res += core.pool_map(xml_worker, core.chunked([c for c in xml_cases if c['cfg'] == 'ns-default'], 64), procs=PROCS)
     for n, fails in res:
         chk.add('evaluations', n)
         for feat, case, exp, obs in fails:
@@ -1063,4 +1151,5 @@ def run(chk: core.Check) -> None:
     chk.coverage['rule'] = ('JsonString: every (source string, rendering) of the escaped states is one trace; JsonModel: every edge '
                             'of the TLC graph is one case (source state rendered from the spec); XmlRoundTrip: every '
                             '(tree, context node) behaviour is one case x {xml.etree, lxml} x {document, element root} x '
-                            '{plain, namespaced, markup characters, non-NFC characters}')
+                            '{plain, namespaced, markup characters, non-NFC characters, texts > 8 KB, texts > 64 KB} x static-context '
+                            'configuration of the parser (StaticCfgs) x comments / PIs before the root (lxml)')
